@@ -104,14 +104,16 @@ def popHeapOk (j : Json) : Bool :=
           (fldBool oj "speciesOk").toOption.getD false &&
           (match fld oj "genome" with | .ok gj => ownBitsOk gj | .error _ => false)
 
-/-- sort ties that make the order produced by Go's `sort.Sort` on more than 12 elements unspecified -/
-def epochHasTie (o : EpochOpts Float) (p : Pop Float) : Bool :=
+/-- a sort of this epoch has a tie among MORE THAN 12 elements (pdqsort branch of `goSort`, where the order of equal
+    elements is decided by pdqsort's pivoting).  Only used to label the case class (`:tie13`) - such scenarios are
+    co-simulated bit-exactly like all others since the model sorts with `goSort`. -/
+def epochHasTie (o : EpochOpts Float) (p : Pop Float) : Bool × Bool :=
   match adjustAll o p.species with
-  | .error _ => false
+  | .error _ => (false, false)
   | .ok ss =>
-    ss.any (fun s => s.orgs.length > 12 && sortHasTie (fun a b => orgLess b a) s.orgs) ||
-    (let p1 := purgeZeroOffspringSpecies { p with species := ss }
-     p1.species.length > 12 && sortHasTie (fun a b => speciesLess b a) p1.species)
+    (ss.any (fun s => s.orgs.length > 12 && sortHasTie (fun a b => orgLess b a) s.orgs),
+     (let p1 := purgeZeroOffspringSpecies { p with species := ss }
+      p1.species.length > 12 && sortHasTie (fun a b => speciesLess b a) p1.species))
 
 /-- the genome dumps of a dumped population, species by species (the order of `species.flatMap orgs`) -/
 def popGenomesJ (j : Json) : List Json :=
@@ -153,8 +155,10 @@ def hEpoch : Handler := fun j => do
   let consumed ← fldNat j "consumed"
   let landscape ← fldStr inp "landscape"
   let implErr := optStr out "err"
-  let tie := epochHasTie o p
-  let cls := landscape ++ (if implErr.isSome then ":err" else "") ++ (if tie then ":tie" else "")
+  let (tieOrgs, tieSpecies) := epochHasTie o p
+  -- :tie13 = some species of more than 12 organisms has a sort-key tie; :tie13s = (also) the list of more than 12 species has one
+  let cls := landscape ++ (if implErr.isSome then ":err" else "") ++
+    (if tieSpecies then ":tie13s" else if tieOrgs then ":tie13" else "")
   let n := o.popSize
   let heapIn := popHeapOk popJ
   let inputOk := heapIn && PopSpec.popInvB p n && p.species.all (fun s => s.orgs.all (fun x => decide (WF x.genome))) &&
@@ -171,7 +175,7 @@ def hEpoch : Handler := fun j => do
     -- known finding K1: populations whose members do not share their first gene (random topologies)
     let k1 := !popSharedHead p && (ie == "noGenes" || ie == "genesis:noGenes" || ie == "noTraitsOrGenes")
     let esig := if k1 then k1EpochSig else "epoch:error:" ++ ie
-    return { corr := corr || tie, spec := c02, nontrivial := false, cls := cls, tie := tie,
+    return { corr := corr, spec := c02, nontrivial := false, cls := cls,
              detail := if corr then "" else s!"impl epoch error {ie} (phase {(fldStr out "phase").toOption.getD "?"}) not reproduced by the model",
              props := [("C02", c02, "epoch failed on a valid population: " ++ ie, esig),
                        ("C01", c02, "epoch failed on a valid population: " ++ ie, esig)] }
@@ -183,8 +187,7 @@ def hEpoch : Handler := fun j => do
     let sortedIds ← arrInt (← fld out "sortedIds")
     let bestId ← fldInt out "bestSpeciesId"
     let (corr, detail) : Bool × String :=
-      if tie then (true, "")
-      else match m1 with
+      match m1 with
         | .error e => (false, s!"model prepare stops: {stopStr e}")
         | .ok ((p1, ex), rs1) =>
           match jsonDiff "afterPrepare" (jPop p1) (jPop ap) with
@@ -228,7 +231,7 @@ def hEpoch : Handler := fun j => do
     let c03why : String := if !inputOk then "" else PopSpec.innovWhy p a
     let structural := a.species.any (fun s => s.orgs.any (·.mutStructBaby))
     return { corr := corr, spec := c02why == "" && c01why == "" && c09why == "" && c10why == "" && c03why == "",
-             nontrivial := inputOk && a.species.length ≥ 1 && (structural || ap.species.length ≥ 2), cls := cls, tie := tie, detail := detail,
+             nontrivial := inputOk && a.species.length ≥ 1 && (structural || ap.species.length ≥ 2), cls := cls, detail := detail,
              props := [("C02", c02why == "", c02why, "epoch:popinv"), ("C01", c01why == "", c01why, c01sig),
                        ("C09", c09why == "", c09why, "epoch:quotas"), ("C10", c10why == "", c10why, "epoch:champion"),
                        ("C03", c03why == "", c03why, "epoch:innov"), ("C17", true, "", "")] }
